@@ -51,6 +51,7 @@ type Op struct {
 type siteSeen struct {
 	site    uint64
 	foreign int64
+	dump    uint64
 }
 
 type Thread struct {
@@ -64,6 +65,9 @@ type Thread struct {
 	own       int64  // scheduling decisions that chose this thread
 	local     uint64 // hash of (site, shared dump) at the points where this thread was resumed in its current operation
 	bases     []siteSeen // (site, local hash on first arrival) in arrival order: a revisit is a loop back-edge
+	cyc       [3]uint64  // the (at most 3) distinct sites of the thread's current tight loop
+	cycN      int
+	cycRun    int // consecutive arrivals at sites of cyc
 	seen      []siteSeen
 	Name      string
 }
@@ -109,6 +113,11 @@ type Execution struct {
 	done     gate
 	finished bool
 	Deadlock bool // no enabled thread, some unfinished
+	Livelock bool // only spinning threads remain and the state they spin on does not change
+	spinCount   int      // yields since the last sign of progress
+	spinDump    uint64   // shared-state dump at the last sign of progress
+	spinThreads int      // finished*100000 + created threads at the last sign of progress
+	spinning    []bool   // threads that have yielded since the last sign of progress
 	Horizon  bool // MaxSteps reached (harness error, not a verdict)
 	Diverged string
 	Panics   []string
@@ -160,6 +169,8 @@ func site(skip int) uint64 {
 	}
 	return h
 }
+
+const spinRunLimit = 20000
 
 const siteTabSize = 1 << 16
 
@@ -310,22 +321,60 @@ func (e *Execution) point(t *Thread, op Op, skip int) {
 	// spin detection: back at the same site while nobody else has taken a step since the last visit =
 	// a complete loop iteration on unchanged state.
 	foreign := e.steps - t.own
+	var d uint64
+	if e.cfg.Dump != nil {
+		d = e.cfg.Dump()
+	}
 	found := false
 	for i := range t.seen {
 		if t.seen[i].site == op.Site {
-			if t.seen[i].foreign == foreign && op.Kind != OpYield {
-				t.yielding = true
+			if op.Kind != OpYield {
+				if e.cfg.Dump != nil {
+					// with a dump: a whole loop iteration during which the shared state did not change
+					// (whoever else ran in between) is a spin
+					if t.seen[i].dump == d {
+						t.yielding = true
+					}
+				} else if t.seen[i].foreign == foreign {
+					t.yielding = true
+				}
 			}
 			t.seen[i].foreign = foreign
+			t.seen[i].dump = d
 			found = true
 			break
 		}
 	}
 	if !found {
-		t.seen = append(t.seen, siteSeen{op.Site, foreign})
+		t.seen = append(t.seen, siteSeen{op.Site, foreign, d})
 	}
 	if op.Kind == OpYield {
 		t.yielding = true
+	}
+	// tight-loop tracking (used for the livelock verdict when the driver supplies no dump): a polling
+	// loop touches two or three sites (lock, unlock, sleep) over and over; real work does not
+	inCyc := false
+	for k := 0; k < t.cycN; k++ {
+		if t.cyc[k] == op.Site {
+			inCyc = true
+		}
+	}
+	switch {
+	case inCyc:
+		t.cycRun++
+	case t.cycN < len(t.cyc):
+		t.cyc[t.cycN] = op.Site
+		t.cycN++
+		t.cycRun++
+	default:
+		t.cyc[0], t.cycN, t.cycRun = op.Site, 1, 1
+	}
+	if !t.yielding {
+		// arriving somewhere new, or after the shared state changed: progress
+		e.spinCount = 0
+		for i := range e.spinning {
+			e.spinning[i] = false
+		}
 	}
 	t.pending = op
 	e.schedule(t, false)
@@ -361,6 +410,15 @@ func (e *Execution) schedule(t *Thread, exiting bool) {
 	}
 	// fair yield (Musuvathi & Qadeer 2008): a thread that just yielded waits for every other thread that
 	// is enabled right now to be scheduled once (or to become disabled).
+	if t.yielding && !t.finished && e.spinCheck(t, isEn) {
+		e.Livelock = true
+		e.finish()
+		if !exiting {
+			var forever gate
+			forever.wait()
+		}
+		return
+	}
 	if t.yielding && !t.finished {
 		e.Yields++
 		t.blockedBy = make([]bool, n)
@@ -394,6 +452,31 @@ func (e *Execution) schedule(t *Thread, exiting bool) {
 		en = enYield
 		for _, id := range en {
 			e.threads[id].blockedBy = nil
+		}
+	}
+	if e.cfg.Dump == nil && anyEn {
+		// no dump available (whole-interpreter drivers): livelock = every enabled thread has been going
+		// round a loop of at most three sites for a long time
+		all := true
+		for _, th := range e.threads {
+			if isEn[th.ID] && th.cycRun < spinRunLimit {
+				all = false
+				break
+			}
+		}
+		if all {
+			e.Livelock = true
+			for _, th := range e.threads {
+				if isEn[th.ID] {
+					e.Blocked = append(e.Blocked, e.describe(th)+" (spinning)")
+				}
+			}
+			e.finish()
+			if !exiting {
+				var forever gate
+				forever.wait()
+			}
+			return
 		}
 	}
 	if !anyEn || len(en) == 0 {
@@ -526,7 +609,7 @@ func (th *Thread) observe(dump uint64) {
 			return
 		}
 	}
-	th.bases = append(th.bases, siteSeen{s, int64(th.local)})
+	th.bases = append(th.bases, siteSeen{site: s, foreign: int64(th.local)})
 	th.local = mix(mix(th.local, s), dump)
 }
 
@@ -537,6 +620,53 @@ func OpBoundary(tag uint64) {
 		t.local = mix(0x1234567, tag)
 		t.bases = t.bases[:0]
 	}
+}
+
+// spinCheck is called when t yields (completed a polling iteration on unchanged state, or slept).
+// Livelock = for a long stretch every step was taken by threads that keep yielding, no thread ended
+// or started, (with a dump) the shared state never changed, and every enabled thread is one of the
+// spinners: deterministic code will repeat this for ever.
+func (e *Execution) spinCheck(t *Thread, isEn []bool) bool {
+	fin := 0
+	for _, th := range e.threads {
+		if th.finished {
+			fin++
+		}
+	}
+	progress := fin*100000 + len(e.threads)
+	var d uint64
+	if e.cfg.Dump != nil {
+		d = e.cfg.Dump()
+	}
+	if progress != e.spinThreads || d != e.spinDump {
+		e.spinThreads, e.spinDump, e.spinCount = progress, d, 0
+		for i := range e.spinning {
+			e.spinning[i] = false
+		}
+	}
+	for len(e.spinning) < len(e.threads) {
+		e.spinning = append(e.spinning, false)
+	}
+	e.spinning[t.ID] = true
+	e.spinCount++
+	limit := 20000
+	if e.cfg.Dump != nil {
+		limit = 200
+	}
+	if e.spinCount <= limit {
+		return false
+	}
+	for id, en := range isEn {
+		if en && !e.spinning[id] {
+			return false
+		}
+	}
+	for id, en := range isEn {
+		if en {
+			e.Blocked = append(e.Blocked, e.describe(e.threads[id])+" (spinning)")
+		}
+	}
+	return true
 }
 
 func mix(h, v uint64) uint64 {
